@@ -9,7 +9,7 @@ changes nothing and is never raised while an id above the highest registered id 
 
 from __future__ import annotations
 
-from ..harness import VERSIONS
+from ..harness import FAULT_CLASSES, VERSIONS
 from ..lscheck import replay_case, run_cases
 from ..reach import Reach
 
@@ -61,6 +61,26 @@ def cases(ctx):
                                 steps.append(["rx", f"{nxt};255;0;0;17;2.0\n"])
                                 steps.append(["rx", f"{nxt};1;0;0;6;c\n"])
                     yield {"version": version, "steps": steps}
+    # the registry is the only thing that decides: commands parked in the sleep buffer for a node, episodes of open
+    # presentation requests, reboot flags - none of it keeps an id occupied once the application removed the node
+    for version in [None, *VERSIONS]:
+        for top in (254, 253, 200, 9):
+            for low in ([], [1], [1, 2, 3], [0]):
+                for forget in (True, False):
+                    if not ctx.mine():
+                        continue
+                    count += 1
+                    steps = [["restore", n, {"type": 17, "version": "2.0", "children": {"0": [3, "c", {"2": "1"}]}}] for n in low]
+                    steps.append(["restore", top, {"type": 17, "version": "2.0", "sleeping": True,
+                                                   "children": {"0": [3, "c", {"2": "1"}]}}])
+                    steps.append(["tx", [top, 0, 1, 0, 2, "parked-a"], True])
+                    steps.append(["tx", [top, 0, 1, 1, 3, "parked-b"], True])
+                    steps.append(["flag", top, "reboot", True])
+                    if forget:
+                        steps.append(["forget", top])
+                    for r in range(3):
+                        steps.append(["rx", REQUESTS[(r + top) % len(REQUESTS)] + "\n"])
+                    yield {"version": version, "steps": steps}
     ctx.exhaustive["shape-x-version-x-requests"] = count
     # random subsets, storms, faults
     for i in range(ctx.pick(150, 60000) // ctx.shard_count):
@@ -76,6 +96,7 @@ def cases(ctx):
         case = {"version": version, "steps": steps}
         if i % 4 == 1 and version is not None:
             case["faults"] = sorted(rng.sample(range(12), 3))
+            case["fault_class"] = rng.choice(FAULT_CLASSES)
         yield case
 
 
